@@ -7,6 +7,7 @@ from typing import Optional
 import z3
 
 from . import extract
+from . import seqs as Q
 from .core import (CLASSES, CONSTS, NONE, SeqV, V, IntS, BoolS, Spec, VAL, Sym, State, DictPayload,
                    ExcInfo, S_bool, S_int, S_none, S_seq, S_str, S_val, Unsupported, fresh,
                    fresh_name, is_prim, parse_spec, sub, typeof, truthy, unS, unI)
@@ -57,7 +58,7 @@ class ExprMixin:
 
     def _assume_distinct(self, st, seq):
         i, j = fresh("di", IntS), fresh("dj", IntS)
-        st.assume(z3.ForAll([i, j], z3.Implies(z3.And(0 <= i, i < j, j < z3.Length(seq)), seq[i] != seq[j])))
+        st.assume(Q.Distinct(seq))
 
     def like(self, st: State, prefix: str, sym: Sym) -> Sym:
         """fresh value of the same static kind as `sym` (loop havoc)."""
@@ -318,7 +319,7 @@ class ExprMixin:
         if isinstance(op, ast.Add):
             if a.kind == "seq" or b.kind == "seq":
                 sp = a.spec if a.kind == "seq" else b.spec
-                return Sym("seq", z3.Concat(as_seq(a, st), as_seq(b, st)), sp)
+                return Sym("seq", Q.Concat(st, as_seq(a, st), as_seq(b, st)), sp)
             if a.kind in ("int", "bool") or b.kind in ("int", "bool"):
                 return S_int(as_int(a, st) + as_int(b, st))
             if (a.spec and a.spec.kind == "str") or (b.spec and b.spec.kind == "str"):
@@ -327,7 +328,7 @@ class ExprMixin:
             if a.kind in ("int", "bool") or b.kind in ("int", "bool"):
                 return S_int(as_int(a, st) - as_int(b, st))
             if a.kind == "set" or b.kind == "set":
-                return self.set_difference(a, b, st)
+                return self.set_difference(self.coerce(a, Spec("set", VAL), st), self.coerce(b, Spec("set", VAL), st), st)
         if isinstance(op, ast.Mult):
             if a.kind == "int" and b.kind == "int":
                 if z3.is_int_value(a.t) or z3.is_int_value(b.t):
@@ -340,6 +341,8 @@ class ExprMixin:
                 return S_val(uf("percent_format", V, V, V)(a.t, box(b, st)), Spec("str"))
         if isinstance(op, ast.BitOr) and a.kind == "val" and b.kind == "val":
             return S_val(uf("bitor", V, V, V)(a.t, b.t))
+        if a.kind == "val" and b.kind == "val":
+            return S_val(uf("binop_" + type(op).__name__, V, V, V)(a.t, b.t))
         raise Unsupported(f"binop {type(op).__name__} on {a.kind},{b.kind} line {node.lineno}")
 
     def set_difference(self, a, b, st):
@@ -384,12 +387,12 @@ class ExprMixin:
     def contains(self, container: Sym, x: Sym, st):
         if container.kind in ("seq", "set"):
             if is_prim(x) or elem_spec(container).kind in ("str", "int", "prim") or container.kind == "set":
-                return seq_contains(container.t, box(x, st))
+                return seq_contains(container.t, box(x, st), st)
             i = fresh("ci", IntS)
             xb = box(x, st)
-            return z3.Exists([i], z3.And(0 <= i, i < z3.Length(container.t), veq(container.t[i], xb)))
+            return z3.Exists([i], z3.And(0 <= i, i < Q.Length(container.t), veq(Q.At(container.t, i), xb)))
         if container.kind == "dict":
-            return seq_contains(container.py.keys, box(x, st))
+            return seq_contains(container.py.keys, box(x, st), st)
         if container.kind == "val":
             sp = container.spec
             if sp is not None and sp.kind == "str":
@@ -405,7 +408,7 @@ class ExprMixin:
         return self.display(node.elts, st, False)
 
     def display(self, elts, st, tup):
-        t = z3.Empty(SeqV)
+        t = Q.Empty()
         especs = set()
         parts = []
         for e in elts:
@@ -419,12 +422,12 @@ class ExprMixin:
                     especs.add(elem_spec(s))
             else:
                 s = self.eval(e, st)
-                parts.append(z3.Unit(box(s, st)))
+                parts.append(Q.Unit(st, box(s, st)))
                 especs.add(self.static_spec(s))
         if len(parts) == 1:
             t = parts[0]
         elif parts:
-            t = z3.Concat(*parts)
+            t = Q.Concat(st, *parts)
         es = especs.pop() if len(especs) == 1 else VAL
         return Sym("seq", t, Spec("seq", es, tup))
 
@@ -440,7 +443,7 @@ class ExprMixin:
         return VAL
 
     def e_Set(self, node, st):
-        cur = Sym("set", z3.Empty(SeqV), Spec("set", VAL))
+        cur = Sym("set", Q.Empty(), Spec("set", VAL))
         for e in node.elts:
             if isinstance(e, ast.Starred):
                 s = self.eval(e.value, st)
@@ -451,7 +454,7 @@ class ExprMixin:
 
     def set_add(self, s: Sym, x: Sym, st):
         xb = box(x, st)
-        return Sym("set", z3.If(seq_contains(s.t, xb), s.t, z3.Concat(s.t, z3.Unit(xb))), s.spec)
+        return Sym("set", z3.If(seq_contains(s.t, xb, st), s.t, Q.Concat(st, s.t, Q.Unit(st, xb))), s.spec)
 
     def set_union(self, a, b, st):
         sa, sb = as_seq(a, st), as_seq(b, st)
@@ -462,7 +465,7 @@ class ExprMixin:
         return Sym("set", r, a.spec)
 
     def e_Dict(self, node, st):
-        d = Sym("dict", None, Spec("dict", (VAL, VAL)), DictPayload(z3.Empty(SeqV), z3.K(V, NONE)))
+        d = Sym("dict", None, Spec("dict", (VAL, VAL)), DictPayload(Q.Empty(), z3.K(V, NONE)))
         for k, v in zip(node.keys, node.values):
             if k is None:
                 raise Unsupported("dict unpacking display")
@@ -472,7 +475,7 @@ class ExprMixin:
     def dict_set(self, d: Sym, k: Sym, v: Sym, st) -> Sym:
         kb, vb = box(k, st), box(v, st)
         p = d.py
-        keys = z3.If(seq_contains(p.keys, kb), p.keys, z3.Concat(p.keys, z3.Unit(kb)))
+        keys = z3.If(seq_contains(p.keys, kb, st), p.keys, Q.Concat(st, p.keys, Q.Unit(st, kb)))
         return Sym("dict", None, d.spec, DictPayload(keys, z3.Store(p.vals, kb, vb), p.kspec, p.vspec))
 
     def e_JoinedStr(self, node, st):
@@ -515,7 +518,7 @@ class ExprMixin:
             lo = as_int(self.eval(sl.lower, st), st) if sl.lower is not None else None
             hi = as_int(self.eval(sl.upper, st), st) if sl.upper is not None else None
             s = as_seq(base, st)
-            return Sym("seq", seq_slice(s, lo, hi), base.spec if base.kind == "seq" else Spec("seq", elem_spec(base)))
+            return Sym("seq", seq_slice(st, s, lo, hi), base.spec if base.kind == "seq" else Spec("seq", elem_spec(base)))
         idx = self.eval(sl, st)
         return self.getitem(base, idx, st, node)
 
@@ -524,20 +527,22 @@ class ExprMixin:
         if base.kind == "seq" or (base.kind == "val" and base.spec is not None and base.spec.kind == "seq"):
             s = as_seq(base, st)
             i = as_int(idx, st)
-            n = z3.Length(s)
+            n = Q.Length(s)
             self.may_raise(st, z3.Or(i >= n, i < -n), "IndexError", where)
             strict = getattr(self, "contract", None) and node is not None and ast.unparse(node) in self.contract.strict_index
             if strict:
                 self.may_raise(st, i < 0, "IndexError:negative-position", where)
-            return unbox(elem_spec(base), s[norm_index(i, n)], st)
+            return unbox(elem_spec(base), Q.At(s, norm_index(i, n)), st)
         if base.kind == "dict":
             kb = box(idx, st)
-            self.may_raise(st, z3.Not(seq_contains(base.py.keys, kb)), "KeyError", where)
+            if not self.spec_mode:
+                self.may_raise(st, z3.Not(seq_contains(base.py.keys, kb, st)), "KeyError", where)
             return unbox(base.py.vspec, z3.Select(base.py.vals, kb), st)
         if base.kind == "val":
             r = uf("py_getitem", V, V, V)(base.t, box(idx, st))
             if not self.spec_mode:
-                self.may_raise(st, uf("py_getitem_raises", V, V, BoolS)(base.t, box(idx, st)), "KeyError|IndexError|TypeError", where)
+                # dict-like reading of an untyped container: x[k] raises iff k not in x
+                self.may_raise(st, z3.Not(uf("py_contains", V, V, BoolS)(base.t, box(idx, st))), "KeyError", where)
             return S_val(r)
         if base.kind == "cls":
             return base  # Generic[T] style subscription of a class
@@ -547,20 +552,20 @@ class ExprMixin:
     def iter_view(self, sym: Sym, st: State, node=None) -> IterView:
         if sym.kind == "seq":
             es = elem_spec(sym)
-            return IterView(z3.Length(sym.t), lambda k, st_: unbox(es, sym.t[k], st_), sym.t, es)
+            return IterView(Q.Length(sym.t), lambda k, st_: unbox(es, Q.At(sym.t, k), st_), sym.t, es)
         if sym.kind == "set":
             # iteration order of a set is an arbitrary permutation of its members (order oracle)
             es = elem_spec(sym)
             perm = self.fresh_term(st, "setorder", SeqV)
             x = fresh("px", V)
             st.assume(z3.ForAll([x], seq_contains(perm, x) == seq_contains(sym.t, x)))
-            st.assume(z3.Length(perm) == z3.Length(sym.t))
+            st.assume(Q.Length(perm) == Q.Length(sym.t))
             self._assume_distinct(st, perm)
             self.collector.order_oracles.append((self.kernel.qualname, getattr(node, "lineno", 0)))
-            return IterView(z3.Length(perm), lambda k, st_: unbox(es, perm[k], st_), perm, es)
+            return IterView(Q.Length(perm), lambda k, st_: unbox(es, Q.At(perm, k), st_), perm, es)
         if sym.kind == "dict":
             p = sym.py
-            return IterView(z3.Length(p.keys), lambda k, st_: unbox(p.kspec, p.keys[k], st_), p.keys, p.kspec)
+            return IterView(Q.Length(p.keys), lambda k, st_: unbox(p.kspec, Q.At(p.keys, k), st_), p.keys, p.kspec)
         if sym.kind == "val":
             sp = sym.spec
             if sp is not None and sp.kind == "opt":
@@ -569,7 +574,7 @@ class ExprMixin:
                 return self.iter_view(unbox(sp, sym.t, st), st, node)
             s = unS(sym.t)
             es = elem_spec(sym)
-            return IterView(z3.Length(s), lambda k, st_: unbox(es, s[k], st_), s, es)
+            return IterView(Q.Length(s), lambda k, st_: unbox(es, Q.At(s, k), st_), s, es)
         if sym.kind == "pyobj" and sym.py[0] == "iterview":
             return sym.py[1]
         raise Unsupported(f"iteration over {sym.kind}")
@@ -589,17 +594,17 @@ class ExprMixin:
                     self.bind_target(e, it, st)
                 return
             s = as_seq(value, st)
-            self.may_raise(st, z3.Length(s) != len(target.elts), "ValueError", "unpack")
+            self.may_raise(st, Q.Length(s) != len(target.elts), "ValueError", "unpack")
             es = None
             if value.spec is not None and value.spec.kind == "tupleof":
                 es = value.spec.arg
             for i, e in enumerate(target.elts):
                 sp = es[i] if es else elem_spec(value)
-                self.bind_target(e, unbox(sp, s[i], st), st)
+                self.bind_target(e, unbox(sp, Q.At(s, i), st), st)
             return
         raise Unsupported(f"assignment target {type(target).__name__}")
 
-    def comp_core(self, node, st: State):
+    def comp_core(self, node, st: State, need_box: bool = True):
         """Evaluate a single-generator comprehension symbolically.
         Returns (n, i, elt_sym(i), conds(i)) with i a fresh Int constant bound over [0,n)."""
         if len(node.generators) != 1:
@@ -628,7 +633,7 @@ class ExprMixin:
                 eb = (box(elt[0], st), box(elt[1], st))
             else:
                 elt = self.eval(node.elt, st)
-                eb = box(elt, st) if elt.kind != "pyobj" else None
+                eb = box(elt, st) if (need_box and elt.kind != "pyobj") else None
             if conds:
                 del st.guards[len(st.guards) - len(conds):]
         finally:
@@ -666,22 +671,22 @@ class ExprMixin:
         r = self.fresh_term(st, "comp", SeqV)
         es = self.static_spec(elt)
         if cond is None:
-            st.assume(z3.Length(r) == view.length)
-            st.assume(z3.ForAll([i], z3.Implies(rng, r[i] == eb)))
+            st.assume(Q.Length(r) == view.length)
+            st.assume(z3.ForAll([i], z3.Implies(rng, Q.At(r, i) == eb)))
         else:
             src = z3.Function(fresh_name("src"), IntS, IntS)
             dst = z3.Function(fresh_name("dst"), IntS, IntS)
             j, j2 = fresh("cj", IntS), fresh("cj2", IntS)
             n = view.length
-            st.assume(z3.Length(r) <= n)
-            st.assume(z3.ForAll([j], z3.Implies(z3.And(0 <= j, j < z3.Length(r)),
+            st.assume(Q.Length(r) <= n)
+            st.assume(z3.ForAll([j], z3.Implies(z3.And(0 <= j, j < Q.Length(r)),
                                                z3.And(0 <= src(j), src(j) < n,
                                                       z3.substitute(cond, (i, src(j))),
-                                                      r[j] == z3.substitute(eb, (i, src(j))),
+                                                      Q.At(r, j) == z3.substitute(eb, (i, src(j))),
                                                       dst(src(j)) == j))))
-            st.assume(z3.ForAll([j, j2], z3.Implies(z3.And(0 <= j, j < j2, j2 < z3.Length(r)), src(j) < src(j2))))
+            st.assume(z3.ForAll([j, j2], z3.Implies(z3.And(0 <= j, j < j2, j2 < Q.Length(r)), src(j) < src(j2))))
             st.assume(z3.ForAll([i], z3.Implies(z3.And(rng, cond),
-                                               z3.And(0 <= dst(i), dst(i) < z3.Length(r), src(dst(i)) == i))))
+                                               z3.And(0 <= dst(i), dst(i) < Q.Length(r), src(dst(i)) == i))))
         return Sym("seq", r, Spec("seq", es, False))
 
     def e_GeneratorExp(self, node, st):
